@@ -1,3 +1,250 @@
-import LA.Model.ReadAhead
+/-
+C08 — Truncated or failing input is reported and never invents data.
+
+Interface-level theorems over the model of the peek/consume window
+(`LA.RA`, archive_read.c) and its abstract stream (`Spec`):
+* `truncation_prefix`: whatever a client obtains from a truncated stream before
+  the first failure is what it obtains from the intact stream;
+* `consume_short_is_fatal`: asking to consume more than the stream holds is
+  reported (ARCHIVE_FATAL), never a clean short count;
+* `callback_fault_is_fatal`, `fatal_is_sticky`: a read error, a failing or
+  misbehaving skip callback at any invocation surfaces as a fatal status and
+  the filter stays failed;
+* `no_invented_data`: under any fault script every window handed to a parser is
+  a contiguous piece of the original stream.
+-/
+import LA.Props.C05
 namespace LA.C08
+open LA.RA LA.C05
+
+inductive Ev
+  | ahead (o : Obs)
+  | consumed (r : Int)
+  deriving DecidableEq, Repr
+
+def Ev.failed : Ev → Bool
+  | .ahead (.ok _) => false
+  | .ahead _ => true
+  | .consumed r => r < 0
+
+/-- Run a client on the abstract stream up to (and including) the first failure
+it is told about. -/
+def runUntilFail {α : Type} : Prog α → Spec → List Ev × Option α
+  | .ret a, _ => ([], some a)
+  | .ahead min _ k, sp =>
+    match specAhead sp min with
+    | (.ok b, sp') => let r := runUntilFail (k (.ok b)) sp'; (.ahead (.ok b) :: r.1, r.2)
+    | (o, _) => ([.ahead o], none)
+  | .consume n k, sp =>
+    let c := specConsume sp n
+    if c.1 < 0 then ([.consumed c.1], none)
+    else let r := runUntilFail (k c.1) c.2; (.consumed c.1 :: r.1, r.2)
+
+theorem take_prefix (a b : List Nat) (n : Nat) (h : a <+: b) (hn : n ≤ a.length) : a.take n = b.take n := by
+  obtain ⟨t, rfl⟩ := h
+  rw [List.take_append_of_le_length hn]
+
+theorem drop_prefix (a b : List Nat) (n : Nat) (h : a <+: b) : a.drop n <+: b.drop n := by
+  obtain ⟨t, rfl⟩ := h
+  by_cases hn : n ≤ a.length
+  · rw [List.drop_append_of_le_length hn]; exact List.prefix_append _ _
+  · have : a.drop n = [] := List.drop_of_length_le (by omega)
+    rw [this]; exact List.nil_prefix
+
+/-- **C08, truncation.**  If the stream a client reads is a prefix of the intact
+one (cut at any byte offset, ending in end-of-file or in a callback error),
+then either the client cannot tell the difference, or its run on the cut stream
+ends in a reported failure and everything it was given before that is exactly
+what the intact stream gives it. -/
+theorem truncation_prefix {α : Type} (p : Prog α) (remT remF : List Nat) (tT tF : Term)
+    (h : remT <+: remF) :
+    let T := runUntilFail p ⟨remT, tT, false⟩
+    let F := runUntilFail p ⟨remF, tF, false⟩
+    T = F ∨ (T.2 = none ∧ ∃ pre last, T.1 = pre ++ [last] ∧ last.failed = true ∧ pre <+: F.1) := by
+  induction p generalizing remT remF with
+  | ret a => left; rfl
+  | ahead min hm k ih =>
+    by_cases hle : min ≤ remT.length
+    · have hle' : min ≤ remF.length := Nat.le_trans hle h.length_le
+      have e : remT.take min = remF.take min := take_prefix _ _ _ h hle
+      have := ih (.ok (remF.take min)) remT remF h
+      simp only [runUntilFail, specAhead, hle, hle', e, if_true, Bool.false_eq_true, if_false]
+      rcases this with h1 | ⟨h1, pre, last, h2, h3, h4⟩
+      · left; rw [h1]
+      · right
+        refine ⟨h1, Ev.ahead (.ok (remF.take min)) :: pre, last, by simp [h2], h3, ?_⟩
+        exact List.cons_prefix_cons.mpr ⟨rfl, h4⟩
+    · right
+      simp only [runUntilFail, specAhead, hle, if_false, Bool.false_eq_true]
+      cases tT <;> exact ⟨rfl, [], _, rfl, rfl, List.nil_prefix⟩
+  | consume n k ih =>
+    by_cases h1 : n < 0
+    · left; simp [runUntilFail, specConsume, h1]
+    · by_cases h2 : n = 0
+      · have := ih 0 remT remF h
+        simp only [runUntilFail, specConsume, h1, h2, if_false, if_true, Int.lt_irrefl]
+        rcases this with e | ⟨e1, pre, last, e2, e3, e4⟩
+        · left; rw [e]
+        · right
+          exact ⟨e1, Ev.consumed 0 :: pre, last, by simp [e2], e3, List.cons_prefix_cons.mpr ⟨rfl, e4⟩⟩
+      · by_cases hle : n.toNat ≤ remT.length
+        · have hle' : n.toNat ≤ remF.length := Nat.le_trans hle h.length_le
+          have := ih n (remT.drop n.toNat) (remF.drop n.toNat) (drop_prefix _ _ _ h)
+          simp only [runUntilFail, specConsume, h1, h2, hle, hle', if_false, if_true, Bool.false_eq_true]
+          rcases this with e | ⟨e1, pre, last, e2, e3, e4⟩
+          · left; rw [e]
+          · right
+            exact ⟨e1, Ev.consumed n :: pre, last, by simp [e2], e3, List.cons_prefix_cons.mpr ⟨rfl, e4⟩⟩
+        · right
+          simp only [runUntilFail, specConsume, h1, h2, hle, if_false, Bool.false_eq_true]
+          cases tT <;> exact ⟨by simp, [], Ev.consumed (-30), by simp, by simp [Ev.failed], List.nil_prefix⟩
+
+/-- Non-vacuity: a 3-byte cut of a 5-byte stream, read by a client that peeks 2,
+consumes 2, then needs 2 more. -/
+example : ([1, 2, 3] : List Nat) <+: [1, 2, 3, 4, 5] := by decide
+
+/-- A body cut short is reported: consuming more than the stream holds returns
+ARCHIVE_FATAL (-30), whatever the source's blocks and a well-behaved skipper do. -/
+theorem consume_short_is_fatal (s : State) (n : Nat) (hi : Inv s) (hf : s.fatal = false)
+    (hsk : SkipsOk s.skips) (hlt : (remaining s).length < n) :
+    (consume s n).1 = -30 := by
+  have hc := (consume_refines s n hi hsk).2.1
+  rw [hc]
+  have h1 : ¬ ((n : Int) < 0) := by omega
+  have h2 : ¬ ((n : Int) = 0) := by omega
+  have h3 : ¬ n ≤ (remaining s).length := by omega
+  simp only [specConsume, h1, h2, if_false, absN, hf, Bool.false_eq_true, Int.toNat_natCast, h3]
+  cases s.term <;> rfl
+
+/-- A read-callback error, or a skip callback that fails or claims more than it
+was asked for, at any invocation: the call in progress reports failure and the
+filter is marked failed. -/
+theorem callback_fault_is_fatal (s : State) (n : Nat) (hi : Inv s) (hf : s.fatal = false) (hn : 0 < n)
+    (hneg : (advance s n).1 < 0) : (advance s n).2.fatal = true := by
+  obtain ⟨_, _, _, g4⟩ := advance_spec s n hi hf hn
+  rcases g4 with ⟨a1, _⟩ | ⟨a1, _⟩ | ⟨_, a2, _⟩
+  · omega
+  · omega
+  · exact a2
+
+/-- A failed filter stays failed: every later peek and consume reports failure. -/
+theorem fatal_is_sticky (s : State) (hf : s.fatal = true) (min : Nat) (n : Int) (hn : n ≠ 0) :
+    (ahead s min).1 = .fatal ∧ (ahead s min).2 = s ∧ (consume s n).1 = -30 ∧ (consume s n).2.fatal = true := by
+  refine ⟨by simp [ahead, hf], by simp [ahead, hf], ?_, ?_⟩
+  · unfold consume
+    by_cases h1 : n < 0
+    · simp [h1]
+    · simp only [h1, hn, if_false, advance, hf, if_true]
+      have : ¬ ((-1 : Int) = n) := by omega
+      simp [this]
+  · unfold consume
+    by_cases h1 : n < 0
+    · simp [h1, hf]
+    · simp only [h1, hn, if_false, advance, hf, if_true]
+      split <;> exact hf
+
+inductive Op | ahead (min : Nat) | consume (n : Int)
+
+/-- Windows handed out over a sequence of operations. -/
+def windows : State → List Op → List (List Nat)
+  | _, [] => []
+  | s, .ahead min :: ops =>
+    match (RA.ahead s min).1 with
+    | .window w _ => w :: windows (RA.ahead s min).2 ops
+    | _ => windows (RA.ahead s min).2 ops
+  | s, .consume n :: ops => windows (RA.consume s n).2 ops
+
+theorem consume_suffix (s : State) (n : Int) (hi : Inv s) :
+    Inv (consume s n).2 ∧ ∃ k, remaining (consume s n).2 = (remaining s).drop k := by
+  unfold consume
+  by_cases h1 : n < 0
+  · simp only [h1, if_true]; exact ⟨hi, 0, by simp⟩
+  · by_cases h2 : n = 0
+    · simp only [h1, h2, if_false, if_true]; exact ⟨hi, 0, by simp⟩
+    · simp only [h1, h2, if_false]
+      by_cases hf : s.fatal = true
+      · simp only [advance, hf, if_true]
+        split <;> exact ⟨hi, 0, by simp⟩
+      · have hf' : s.fatal = false := by simpa using hf
+        obtain ⟨g1, _, g3, _⟩ := advance_spec s n.toNat hi hf' (by omega)
+        generalize advance s n.toNat = r at *
+        obtain ⟨a, b⟩ := r
+        simp only [] at g1 g3 ⊢
+        split <;> exact ⟨g1, g3⟩
+
+/-- **C08, no invented data.**  For every source script, every skip script
+(including failing and misbehaving ones) and every sequence of interface
+operations, each window a parser is given is a contiguous piece of the original
+stream. -/
+theorem no_invented_data (s : State) (ops : List Op) (hi : Inv s)
+    (hmin : ∀ op ∈ ops, match op with | .ahead m => m ≤ 2 ^ 62 | .consume _ => True) :
+    ∀ w ∈ windows s ops, ∃ k, w <+: (remaining s).drop k := by
+  induction ops generalizing s with
+  | nil => intro w hw; simp [windows] at hw
+  | cons op ops ih =>
+    have hmin' : ∀ op ∈ ops, match op with | .ahead m => m ≤ 2 ^ 62 | .consume _ => True :=
+      fun o ho => hmin o (List.mem_cons_of_mem _ ho)
+    cases op with
+    | consume n =>
+      obtain ⟨i1, k, hk⟩ := consume_suffix s n hi
+      intro w hw
+      simp only [windows] at hw
+      obtain ⟨k', hk'⟩ := ih _ i1 hmin' w hw
+      exact ⟨k + k', by rw [hk, List.drop_drop] at hk'; exact hk'⟩
+    | ahead m =>
+      have hm : m ≤ 2 ^ 62 := hmin (.ahead m) (by simp)
+      obtain ⟨i1, _, _, _, _⟩ := ahead_refines s m hi hm
+      have hrem : (RA.ahead s m).2.fatal = false → remaining (RA.ahead s m).2 = remaining s := by
+        intro hnf
+        unfold RA.ahead at hnf ⊢
+        by_cases hf : s.fatal = true
+        · simp [hf]
+        · have hf' : s.fatal = false := by simpa using hf
+          simp only [hf', Bool.false_eq_true, if_false] at hnf ⊢
+          obtain ⟨_, _, _, g4⟩ := aheadLoop_spec s m hi hf' hm
+          generalize aheadLoop s m = r at *
+          obtain ⟨r1, s'⟩ := r
+          cases r1 with
+          | window w fc => exact g4.1
+          | short k => exact g4.1
+          | fatal => exact g4.1
+          | stuck => exact absurd g4 id
+      intro w hw
+      simp only [windows] at hw
+      -- windows after a failed `ahead`: the state is fatal, later peeks return nothing
+      by_cases hnf : (RA.ahead s m).2.fatal = false
+      · have hr := hrem hnf
+        split at hw
+        · rename_i w0 fc hwin
+          rcases List.mem_cons.mp hw with rfl | hw'
+          · exact ⟨0, by simpa using (window_is_stream_prefix s m hi hm w fc hwin).1⟩
+          · obtain ⟨k, hk⟩ := ih _ i1 hmin' w hw'
+            exact ⟨k, by rw [hr] at hk; exact hk⟩
+        · obtain ⟨k, hk⟩ := ih _ i1 hmin' w hw
+          exact ⟨k, by rw [hr] at hk; exact hk⟩
+      · -- failed: use the generic suffix fact (`remaining` only shrinks)
+        have hsuf : ∃ k, remaining (RA.ahead s m).2 = (remaining s).drop k := by
+          unfold RA.ahead
+          by_cases hf : s.fatal = true
+          · simp only [hf, if_true]; exact ⟨0, by simp⟩
+          · have hf' : s.fatal = false := by simpa using hf
+            simp only [hf', Bool.false_eq_true, if_false]
+            obtain ⟨_, _, _, g4⟩ := aheadLoop_spec s m hi hf' hm
+            generalize aheadLoop s m = r at *
+            obtain ⟨r1, s'⟩ := r
+            cases r1 with
+            | window w fc => exact ⟨0, by simpa using g4.1⟩
+            | short k => exact ⟨0, by simpa using g4.1⟩
+            | fatal => exact ⟨0, by simpa using g4.1⟩
+            | stuck => exact absurd g4 id
+        obtain ⟨k0, hk0⟩ := hsuf
+        split at hw
+        · rename_i w0 fc hwin
+          rcases List.mem_cons.mp hw with rfl | hw'
+          · exact ⟨0, by simpa using (window_is_stream_prefix s m hi hm w fc hwin).1⟩
+          · obtain ⟨k, hk⟩ := ih _ i1 hmin' w hw'
+            exact ⟨k0 + k, by rw [hk0, List.drop_drop] at hk; exact hk⟩
+        · obtain ⟨k, hk⟩ := ih _ i1 hmin' w hw
+          exact ⟨k0 + k, by rw [hk0, List.drop_drop] at hk; exact hk⟩
+
 end LA.C08
